@@ -93,6 +93,45 @@ impl CE for Zn {
     }
 }
 
+/// a key whose total order (Ord: f64::total_cmp) is finer than its partial order (IEEE): -0.0 < +0.0 for cmp, equal for
+/// partial_cmp; NaN has a place in cmp and none in partial_cmp.  Each trait method of the array must go to the same
+/// trait method of the elements, as the slice does - the slice is the only oracle for this type.
+#[derive(Clone, Copy, Debug)]
+pub struct Tot(pub f64);
+impl PartialEq for Tot {
+    fn eq(&self, o: &Tot) -> bool {
+        self.0 == o.0
+    }
+}
+impl Eq for Tot {}
+impl PartialOrd for Tot {
+    fn partial_cmp(&self, o: &Tot) -> Option<Ordering> {
+        self.0.partial_cmp(&o.0)
+    }
+}
+impl Ord for Tot {
+    fn cmp(&self, o: &Tot) -> Ordering {
+        self.0.total_cmp(&o.0)
+    }
+}
+fn tot_of(c: i64) -> Tot {
+    Tot(match c { 0 => -0.0, 1 => 0.0, 2 => 1.5, _ => f64::NAN })
+}
+fn slice_agreement<N: ArrayLength>(a: &[i64], b: &[i64], out: &mut dyn Write) {
+    use generic_array::sequence::GenericSequence;
+    let x: GenericArray<Tot, N> = GenericArray::generate(|i| tot_of(a[i]));
+    let y: GenericArray<Tot, N> = GenericArray::generate(|i| tot_of(b[i]));
+    let (sx, sy) = (x.as_slice(), y.as_slice());
+    let bits = |v: &[Tot]| -> Vec<i64> { v.iter().map(|t| (t.0.to_bits() >> 48) as i64).collect() };
+    writeln!(
+        out,
+        "{{\"ev\":\"cmpslice\",\"a\":{},\"b\":{},\"cmp\":{},\"scmp\":{},\"pcmp\":{},\"spcmp\":{},\"eq\":{},\"seq\":{},\"lt\":{},\"slt\":{},\"ge\":{},\"sge\":{},\"max\":{},\"smax\":{},\"min\":{},\"smin\":{}}}",
+        list(a), list(b), ord(Some(x.cmp(&y))), ord(Some(sx.cmp(sy))), ord(x.partial_cmp(&y)), ord(sx.partial_cmp(sy)), x == y, sx == sy, x < y, sx < sy, x >= y, sx >= sy,
+        list(&bits(x.clone().max(y.clone()).as_slice())), list(&bits(std::cmp::max(sx, sy))), list(&bits(x.clone().min(y.clone()).as_slice())), list(&bits(std::cmp::min(sx, sy)))
+    )
+    .unwrap();
+}
+
 fn ord(o: Option<Ordering>) -> i64 {
     match o {
         Some(Ordering::Less) => -1,
@@ -225,6 +264,7 @@ pub fn run(scn: &str, out: &mut dyn Write) {
             "u8" => by_len!(n, N => { pair::<u8, N>(ety, &a, &b, true, out); ordpair::<u8, N>(ety, &a, &b, out); if a == b { dbg::<u8, N>(ety, &a, out) } }),
             "i32" => by_len!(n, N => { pair::<i32, N>(ety, &a, &b, true, out); ordpair::<i32, N>(ety, &a, &b, out); if a == b { dbg::<i32, N>(ety, &a, out) } }),
             "f64" => by_len!(n, N => { pair::<f64, N>(ety, &a, &b, false, out); if a == b { dbg::<f64, N>(ety, &a, out) } }),
+            "tot" => by_len!(n, N => slice_agreement::<N>(&a, &b, out)),
             "znan" => by_len!(n, N => { pair::<Zn, N>(ety, &a, &b, false, out); pair::<GenericArray<Zn, U2>, N>(ety, &a, &b, false, out); if a == b { dbg::<Zn, N>(ety, &a, out) } }),
             "string" => by_len!(n, N => { pair::<String, N>(ety, &a, &b, true, out); ordpair::<String, N>(ety, &a, &b, out); if a == b { dbg::<String, N>(ety, &a, out) } }),
             "nested0" => by_len!(n, N => { pair::<GenericArray<u8, U0>, N>(ety, &a, &b, true, out); ordpair::<GenericArray<u8, U0>, N>(ety, &a, &b, out); }),
